@@ -336,7 +336,14 @@ def _doc(variant, unit=True, concrete_quats=None):
   k1, k2 = variant
   inner = Elem('body', pose(k2), leaves('in_'), name='J2')
   outer = Elem('body', pose(k1), leaves('out_') + [inner], name='J1')
-  anchor = Elem('body', pose('both'), [Elem('joint', {}), Elem('geom', pose('pos'), name='anchor_geom'), outer], name='B')
+  # jointless SIBLINGS after `outer`, each omitting what an earlier sibling spelled out (an omitted pos / quat is the
+  # identity, never the previous sibling's)
+  def small(prefix):
+    return [Elem('geom', pose('pos'), name=prefix + 'g_pos'), Elem('geom', {'fromto': num(6, 'ft')}, name=prefix + 'g_fromto'),
+            Elem('body', pose('both'), [Elem('joint', {}), Elem('geom', pose('pos'), name=prefix + 'cg')], name=prefix + 'jointed')]
+  sibs = [Elem('body', pose('quat'), small('sq_'), name='S1'), Elem('body', pose('pos'), small('sp_'), name='S2'),
+          Elem('body', pose('none'), small('sn_'), name='S3')]
+  anchor = Elem('body', pose('both'), [Elem('joint', {}), Elem('geom', pose('pos'), name='anchor_geom'), outer] + sibs, name='B')
   top = Elem('body', pose(k1), leaves('top_'), name='J0')           # a jointless body directly under the world
   world = Elem('worldbody', {}, [anchor, top])
   return Elem('mujoco', {}, [world])
